@@ -35,5 +35,7 @@ def standins(tier, seed):
         cfgs = [dict(p=2, q=0, r=1, random=2, max_variants=8), dict(p=2, q=1, random=2, max_variants=6), dict(p=1, random=2)]
     else:
         cfgs = [dict(p=p, q=q, r=r, random=4) for (p, q, r) in [(1, 0, 0), (2, 0, 0), (1, 1, 0), (2, 0, 1), (1, 1, 1), (3, 0, 0), (2, 1, 0), (3, 0, 1), (2, 2, 0), (2, 1, 1)]]
-    return [{'name': f'options#{i}', 'bound': 'grade-block operand pairs per signature x the product (sampled in quick) of cse x graded x symbol class x wrapper; Fraction values; every operator compared with the default-options algebra',
+    names = [{'name': 'typeid', 'bound': 'generated function names pairwise distinct across all operators and all ordered key tuples (d<=2 exhaustive, d=3 up to length 3): with a wrapper set functions are called by name',
+              'job': {'kind': 'typeid', 'module': 'standins.jobs2', 'configs': [dict(p=1), dict(p=2), dict(p=2, q=0, r=1, maxlen=2)]}}]
+    return names + [{'name': f'options#{i}', 'bound': 'grade-block operand pairs per signature x the product (sampled in quick) of cse x graded x symbol class x wrapper; Fraction values; every operator compared with the default-options algebra',
              'job': {'kind': 'options', 'module': 'standins.jobs5', 'ops': ops, 'configs': [c], 'seed': seed + i}} for i, c in enumerate(cfgs)]
